@@ -56,6 +56,10 @@ type Failure struct {
 	Clause string // stable clause id, e.g. "C17.value"
 	Sig    string // witness signature: identifies the failing call site / minimal case
 	Msg    string // human readable detail
+	// Observed marks a failure that is its own witness (two identical calls
+	// inside one execution gave different answers): it needs no confirmation
+	// by re-execution, and may not reproduce when the cause is nondeterminism.
+	Observed bool
 }
 
 type abortExec struct{ why string }
@@ -100,7 +104,12 @@ func PickDev[T any](c *Ctx, label string, vals ...T) T { return vals[c.Deviate(l
 
 // Fail records a violated oracle clause.
 func (c *Ctx) Fail(clause, sig, format string, args ...any) {
-	c.fails = append(c.fails, Failure{clause, sig, fmt.Sprintf(format, args...)})
+	c.fails = append(c.fails, Failure{Clause: clause, Sig: sig, Msg: fmt.Sprintf(format, args...)})
+}
+
+// FailObserved records a nondeterminism witnessed inside this execution.
+func (c *Ctx) FailObserved(clause, sig, format string, args ...any) {
+	c.fails = append(c.fails, Failure{Clause: clause, Sig: sig, Msg: fmt.Sprintf(format, args...), Observed: true})
 }
 
 // Failed reports whether a clause has failed in this execution.
